@@ -537,6 +537,10 @@ func runC01(c *Ctx) {
 	checkNormalizeAllPhases(c)
 	checkExactDefaults(c)
 	checkDiffMode(c)
+	c.Rule("R01i", "normalizeIdxName derives the name of a UNIQUE-constraint index from the index parts, so every index handed to it carries its parts: no argument is a bare schema.NewIndex(name) (an index without parts normalises to the table name alone and is never found)", 2)
+	checkNormalizeArgs(c)
+	c.Rule("R01j", ruleTextSQLText, 6)
+	checkSQLTextSearches(c, "R01j")
 	for _, pp := range []string{pSqlite, pMysql, pPostgres} {
 		checkEmitHandle(c, pp)
 	}
@@ -1028,5 +1032,67 @@ func checkDiffMode(c *Ctx) {
 	})
 	if n < 2 {
 		c.Unresolved("R01h", "computeDiff call sites in cmdapi (expected schemaApplyRun and schemaDiffRun)")
+	}
+}
+
+// checkNormalizeArgs is R01i.
+func checkNormalizeArgs(c *Ctx) {
+	n := 0
+	c.AllFuncs(false, func(fi *FuncInfo) {
+		if fi.Pkg.PkgPath != pSqlite {
+			return
+		}
+		info := fi.Info()
+		for _, call := range callsIn(fi.Decl.Body, true) {
+			if !funcIs(calleeOf(info, call), pSqlite, "", "normalizeIdxName") || len(call.Args) != 2 {
+				continue
+			}
+			n++
+			c.funcs[fi.Name] = true
+			isBareNew := func(e ast.Expr) bool {
+				cl, ok := ast.Unparen(e).(*ast.CallExpr)
+				return ok && funcIs(calleeOf(info, cl), pSchema, "", "NewIndex")
+			}
+			arg := ast.Unparen(call.Args[0])
+			if un, ok := arg.(*ast.UnaryExpr); ok && un.Op == token.AND {
+				arg = ast.Unparen(un.X)
+			}
+			bare := isBareNew(arg)
+			if id, ok := arg.(*ast.Ident); ok && !bare {
+				obj := info.ObjectOf(id)
+				defs, bareDefs, partsSet := 0, 0, false
+				ast.Inspect(fi.Decl.Body, func(m ast.Node) bool {
+					switch x := m.(type) {
+					case *ast.AssignStmt:
+						for i, l := range x.Lhs {
+							if lid, ok := l.(*ast.Ident); ok && info.ObjectOf(lid) == obj && len(x.Rhs) == len(x.Lhs) {
+								defs++
+								if isBareNew(x.Rhs[i]) {
+									bareDefs++
+								}
+							}
+							if isField(info, l, pSchema, "Index", "Parts") {
+								if r := rootIdent(l); r != nil && info.ObjectOf(r) == obj {
+									partsSet = true
+								}
+							}
+						}
+					case *ast.CallExpr:
+						// idx.AddColumns / AddParts / AddExprs on the variable
+						if se, ok := x.Fun.(*ast.SelectorExpr); ok && strings.HasPrefix(se.Sel.Name, "Add") {
+							if r := rootIdent(se.X); r != nil && info.ObjectOf(r) == obj {
+								partsSet = true
+							}
+						}
+					}
+					return true
+				})
+				bare = defs > 0 && defs == bareDefs && !partsSet
+			}
+			c.Check("R01i", fi.Name+"|normalizeIdxName("+types.ExprString(call.Args[0])+", …) has parts", call.Pos(), !bare, "%s normalises an index created by schema.NewIndex(name) alone: without parts the generated name is just the table name, the UNIQUE-constraint index of the other table is never found, and the differ drops and re-creates it (DROP INDEX of a name that does not exist: the apply fails)", fi.Name)
+		}
+	})
+	if n < 2 {
+		c.Unresolved("R01i", "calls of sqlite.normalizeIdxName (expected in Normalize, FindGeneratedIndex and the planner)")
 	}
 }
